@@ -81,6 +81,7 @@ const (
 	fOnCubEnd    = 256
 	fOnQuad      = 512
 	fCubEndAhead = 1024
+	fCubInfl     = 2048
 	fOnOther     = 512 // Filling (sf only): the start point lies on another contour
 )
 
@@ -116,16 +117,18 @@ func rayClass(f int) string {
 	switch {
 	case f&fOpenEnd != 0:
 		return "open-end"
-	case f&fHEdge != 0:
-		return "hedge"
 	case f&fZeroTan != 0:
 		return "cubic-zero-tangent"
 	case f&fCubEndAhead != 0:
 		return "cubic-end-vertex"
+	case f&fHEdge != 0:
+		return "hedge"
 	case f&fTanVert != 0:
 		return "tangent-vertex"
 	case f&fVertex != 0:
 		return "vertex"
+	case f&fCubInfl != 0:
+		return "cubic-inflection"
 	case f&fTanCurve != 0:
 		return "curve-tangent"
 	}
@@ -287,6 +290,9 @@ func exec(s *Scenario) (ms []core.Mismatch, red []*Scenario, skipped bool) {
 			add("windings:boundary-false+"+tag, fmt.Sprintf("point off the boundary (winding %d), Windings reports boundary; %s", w, where(q)), one())
 		case q.B == 0 && rw.n != w:
 			dev := "miscount"
+			if d := rw.n - w; strings.HasPrefix(tag, "cubic-inflection") && (d == 1 || d == -1) {
+				dev = "crossing-dropped" // exactly one crossing is missing (an inverted crossing direction would be off by two)
+			}
 			if s.Open && rw.n == q.Wd*sgn {
 				dev = "as-if-not-closed" // exactly the winding of the drawn segments: the open contour was not closed
 			}
@@ -560,6 +566,7 @@ func (d Driver) Run(c *core.Ctx) error {
 		jobs = append(jobs, tlc.Opts{Module: "Query", Config: cfg(n, k, nc, mode, kinds, num, false), Seed: c.Seed + seedOff, Workers: 4, HeapGB: 3, Timeout: 30 * time.Minute})
 	}
 	if c.Thorough() {
+		gen(8, 3, 1, "special", `{"L"}`, 0, 0) // 124 contours: cubics with a horizontal inflection point, cusps at the right-most vertex
 		gen(2, 4, 1, "polyall", `{"L"}`, 0, 0) // all 6561 contours of <=4 points on 3x3
 		gen(4, 5, 1, "polyrand", `{"L"}`, 1200, 0)
 		gen(3, 4, 2, "polyrand", `{"L"}`, 400, 1)
@@ -570,6 +577,7 @@ func (d Driver) Run(c *core.Ctx) error {
 		gen(10, 3, 2, "curves", all, 250, 6)
 		gen(20, 3, 1, "curves", `{"L","A"}`, 40, 7)
 	} else {
+		gen(8, 3, 1, "special", `{"L"}`, 0, 0) // 124 contours: cubics with a horizontal inflection point, cusps at the right-most vertex
 		gen(2, 3, 1, "polyall", `{"L"}`, 0, 0) // all 729 triangles (incl. degenerate) on 3x3
 		gen(2, 4, 1, "polyrand", `{"L"}`, 400, 0)
 		gen(4, 5, 2, "polyrand", `{"L"}`, 70, 1)
